@@ -126,7 +126,7 @@ def callee_inserts_keyed(repo, callee, call, derived):
     return False, "callee not found"
 
 
-def classify_chain(chain, top):
+def classify_chain(chain, top, ty_hint=""):
     """Verdict for an adaptor chain starting at an order-exposing call: True (order-insensitive), False (order reaches a sequence), None."""
     term = chain[-1]
     mids = chain[1:-1] if len(chain) > 1 else []
@@ -135,7 +135,7 @@ def classify_chain(chain, top):
     if term in INSENSITIVE_TERMINALS:
         return True
     if term == "collect":
-        tf = top.get("turbofish", "")
+        tf = top.get("turbofish", "") or ty_hint
         if re.search(r"(Hash|BTree)(Map|Set)", tf):
             return True
         if re.search(r"\b(Vec|String|TokenStream|VecDeque|Box)\b", tf):
@@ -262,10 +262,10 @@ def r1(chk):
                                 chk.expect("R1", k2 + "/for", not bad, f, node["line"], "hash order reaches an order-sensitive effect: " + "; ".join(b[1] for b in bad),
                                            found=[b[1] for b in bad], detail=[v[1] for v in verdicts])
                             else:
-                                chk.bad("R1", k2, f, node["line"], "hash-ordered iterator escapes (consumer not recognised)", found=render(pp)[:80] if pp else None)
+                                chk.inconc("R1", f"{k2} at {f}:{node['line']}: hash-ordered iterator handed to a consumer the rule does not recognise: " + (render(pp)[:80] if pp else "?"))
                             continue
                         if any(x not in PASSTHROUGH for x in mids):
-                            chk.bad("R1", k2, f, node["line"], "unrecognised adaptor on a hash-ordered iterator", found=mids)
+                            chk.inconc("R1", f"{k2} at {f}:{node['line']}: unrecognised adaptor on a hash-ordered iterator: {mids}")
                             continue
                         if term in INSENSITIVE_TERMINALS:
                             chk.ok("R1", k2, f, node["line"], detail="order-insensitive terminal")
@@ -279,9 +279,23 @@ def r1(chk):
                             chk.expect("R1", k2, not bad, f, node["line"], "hash order reaches an order-sensitive effect: " + "; ".join(b[1] for b in bad),
                                        expected="order-insensitive consumer", found=[b[1] for b in bad])
                         else:
-                            chk.bad("R1", k2, f, node["line"], f"hash-ordered iterator consumed by order-sensitive `{term}`", found=chain)
+                            pj = parents[j] if j >= 0 else None
+                            if term in PASSTHROUGH and pj is not None:
+                                # a lazy iterator in hash order handed on: decided by what receives it
+                                if pj["k"] == "MethodCall" and any(a is top for a in pj["args"]) and pj["method"] in SEQ_SINK_METHODS:
+                                    chk.bad("R1", k2, f, node["line"], f"hash-ordered iterator fed to the sequenced sink .{pj['method']}()", found=chain + [pj["method"]])
+                                    continue
+                                if pj["k"] == "For" and pj["iter"] is top:
+                                    lvs = [q["name"] for q in walk(pj["pat"]) if q["k"] == "PIdent"]
+                                    verdicts = loop_body_verdict(pj["body"], lvs, set(cont), repo, chk)
+                                    bad = [v for v in verdicts if not v[0]]
+                                    chk.expect("R1", k2 + "/for", not bad, f, node["line"], "hash order reaches an order-sensitive effect: " + "; ".join(b[1] for b in bad), found=[b[1] for b in bad])
+                                    continue
+                            hint = pj["pat"]["ty"] if pj is not None and pj["k"] == "Let" and pj["pat"]["k"] == "PType" else ""
+                            v_ = classify_chain(chain, top, hint)
+                            chk.shape("R1", k2, v_ is True, v_ is False, f, node["line"], what=f"hash-ordered iterator consumed by order-sensitive `{term}`", found=chain)
                         continue
-                    chk.bad("R1", mk(f".{m}"), f, node["line"], "unclassified method on a hash container", found=m)
+                    chk.inconc("R1", f"{mk('.' + m)} at {f}:{node['line']}: method `{m}` on a hash container is not classified (neither point query nor order-exposing)")
                     continue
                 if par["k"] == "For" and par["iter"] is cur:
                     chk._c19_exposed.update({(f, node["line"]), (f, cur.get("line"))})
@@ -299,7 +313,7 @@ def r1(chk):
                 if par["k"] in ("Closure",):
                     chk.ok("R1", mk(""), f, node["line"], nontrivial=False)
                     continue
-                chk.bad("R1", mk("/?"), f, node["line"], "unclassified use of a hash container", found=par["k"] + ": " + render(par)[:80])
+                chk.inconc("R1", f"{mk('/?')} at {f}:{node['line']}: use of a hash container the rule does not classify: " + par["k"] + ": " + render(par)[:80])
     chk.unit("hash_containers", ncont)
     if ncont < 8:
         chk.inconc("R1", f"only {ncont} hash containers found (< 8 confirmed by hand)")
